@@ -53,17 +53,18 @@ Definition nonuncompress (src : list Z) (dest_size dest_cap : Z) (dest_nil : boo
   if list_eq_dec Z.eq_dec tail (be4 adler) then Ok outb else Err (-1).
 
 (* ---- sc_io_decode ---------------------------------------------------------------------------- *)
-(* memcpy (opos, base_out, n): reads base_out[0..n), writes compressed[ocnt .. ocnt+n) *)
-Definition comp_append (comp : list Z) (ocnt csize : Z) (pt : list Z) (n : Z) : res (list Z) :=
+(* memcpy (opos, base_out, n): reads base_out[0..n), writes compressed[ocnt .. ocnt+n);
+   rcomp = the bytes of `compressed` written so far, last first *)
+Definition comp_append (rcomp : list Z) (ocnt csize : Z) (pt : list Z) (n : Z) : res (list Z) :=
   blk <- slice pt 0 n ;;
-  if csize <? ocnt + n then Oob else Ok (comp ++ blk).
+  if csize <? ocnt + n then Oob else Ok (rev_append blk rcomp).
 
 (* the for loop over the lines; k = lines still to read, zlin = base64_lines - k;
    dlen = size of the input array, irest = the input from index ipos on *)
 Fixpoint dec_lines (k : nat) (dlen : Z) (irest : list Z) (ipos irem zlin lines : Z)
-         (comp : list Z) (ocnt csize : Z) (pt : list Z) (bst : dstate) : res (list Z * Z) :=
+         (rcomp : list Z) (ocnt csize : Z) (pt : list Z) (bst : dstate) : res (list Z * Z) :=
   match k with
-  | O => Ok (comp, ocnt)
+  | O => Ok (rev_append rcomp [], ocnt)
   | S k' =>
     let lein := dec_lein irem in
     if negb ((0 <=? ipos) && (ipos + lein <=? dlen)) then Oob else   (* code_in[0 .. lein) *)
@@ -72,11 +73,11 @@ Fixpoint dec_lines (k : nat) (dlen : Z) (irest : list Z) (ipos irem zlin lines :
     if lout =? 0 then Err (-1) else
     if zlin <? u64 (lines - 1) then
       if negb (lout =? 57) then Err (-1) else
-      comp1 <- comp_append comp ocnt csize pt1 57 ;;
+      comp1 <- comp_append rcomp ocnt csize pt1 57 ;;
       dec_lines k' dlen (skipn 78 irest) (ipos + 78) (u64 (irem - 76)) (zlin + 1) lines
                 comp1 (u64 (ocnt + 57)) csize pt1 bst1
     else
-      comp1 <- comp_append comp ocnt csize pt1 lout ;;
+      comp1 <- comp_append rcomp ocnt csize pt1 lout ;;
       dec_lines k' dlen (skipn (Z.to_nat (lein + 2)) irest) (ipos + (lein + 2)) (u64 (irem - lein)) (zlin + 1) lines
                 comp1 (u64 (ocnt + lout)) csize pt1 bst1
   end.
